@@ -181,6 +181,11 @@ func (self *MapIterator) appendInterface(p *_MapPair, t *rt.GoType, k unsafe.Poi
 	if len(rt.IfaceType(t).Methods) == 0 {
 		panic("unexpected map key type")
 	}
+	/* a nil interface has no text, it is written as the empty key (like a nil pointer) */
+	if (*rt.GoIface)(k).Itab == nil {
+		p.k = ""
+		return nil
+	}
 	p.k, err = asText(k)
 	return
 }
